@@ -17,6 +17,7 @@ import Pyc.Driver.Redeemers
 import Pyc.Driver.Leaves
 import Pyc.Driver.SizeDom
 import Pyc.Driver.Metadata
+import Pyc.Driver.NativeScript
 open Lean Pyc.Driver
 
 /-- dispatch on the prefix of `op` -/
@@ -41,6 +42,7 @@ def dispatch (op : String) (j : Json) : R Json :=
   else if op.startsWith "leaf." then handleLeaf op j
   else if op.startsWith "dom." then handleSizeDom op j
   else if op.startsWith "md." then handleMetadata op j
+  else if op.startsWith "ns." then handleNativeScript op j
   else throw s!"unknown op {op}"
 
 def handleLine (line : String) : String :=
